@@ -195,6 +195,17 @@ int main(int argc, char **argv)
     ev_gcd(0x300000000ull, 0x200000000ull, 64);
     ev_gcd(0xFFFFFFFFFFFFFFFFull, 0xFFFFFFFFull, 64);
     ev_gcd(0xFFFFFFFFu, 0xFFFFu, 32);
+    /* consecutive Fibonacci numbers: the longest Euclidean chains for their size */
+    {
+        uint64_t fa = 1, fb = 1;
+        for (int i = 0; i < 91; ++i)
+        {
+            uint64_t fc = fa + fb;
+            ev_gcd(fc, fb, 64); ev_gcd(fb, fc, 64);
+            if (fc <= 0xFFFFFFFFull) { ev_gcd(fc, fb, 32); ev_gcd(fb, fc, 32); ev_gcd(2 * fb <= 0xFFFFFFFFull ? 2 * fb : fb, fc, 32); }
+            fa = fb; fb = fc;
+        }
+    }
     /* least common multiples at the top of the representable range (the product still fits the word) */
     ev_gcd(0xFFFFFFFFull, 0x100000001ull, 64);               /* lcm = 2^64 - 1 */
     ev_gcd(3, 0x5555555555555555ull, 64);                    /* lcm = 2^64 - 1 */
